@@ -164,7 +164,9 @@ def cases(quick, rng):
     return out
 
 
-def program(b, chain, store):
+def program(b, chain, store, place=0):
+    """place: 0 the function alone; 1 followed by another function; 2 between two functions that contain valid selections of their own
+    (the verdict on a module must not depend on which function holds the selection)"""
     name, dims = b
     e = V("a")
     for s in chain:
@@ -174,7 +176,10 @@ def program(b, chain, store):
     if store:
         body.append(Ret(V("x")))
     f = Func("f", [Arg(t, n) for n, t in VARS.items()], "float", Block(body), export=True)
-    return Module([f])
+    tail = Func("tail", [Arg("int", "q")], "int", Block([Ret(V("q"))]), export=True)
+    lead = Func("lead", [Arg("float4", "p"), Arg("int", "q")], "float", Block([Decl("int", "z", None, dims=[2]), ES(A(Idx(V("z"), I(1)), V("q"))), Ret(B("+", Mem(V("p"), "x"), Idx(V("p"), I(3))))]), export=True)
+    valid2 = Func("after", [Arg("float2", "p")], "float", Block([Decl("float", "w", None, dims=[3]), Ret(B("+", Idx(V("w"), I(2)), Mem(V("p"), "y")))]), export=True)
+    return Module([f] if place == 0 else ([f, tail] if place == 1 else [lead, f, valid2]))
 
 
 def impl_code(r):
@@ -205,7 +210,7 @@ def run(ctx):
             if t is None:
                 break
         store = (k % 5 == 3) and t == ("float", ())
-        text, _ = nslgen.render(program(b, chain, store), ["canonical", "dense"][k % 2], rng)
+        text, _ = nslgen.render(program(b, chain, store, (k // 2) % 3), ["canonical", "dense"][k % 2], rng)
         jobs.append({"src": text, "opts": {}})
         meta.append((b, chain, store))
     res = ctx.run_impl("compile_impl.py", jobs, nworkers=16)
